@@ -158,12 +158,15 @@ class Vertex(base.BaseObject):
         if not self.NEIGHBOR_CACHING:
             return self._QA_NB_INVALID
 
+        # vertices that did not go through __init__ in this interpreter (e.g.
+        # un-pickled ones) have no statistics row yet
+        stats = self._CACHE_STATS.setdefault(self.uid, [0, 0, 0, 0])
         if args in self.__qa_nb_cache:
-            self._CACHE_STATS[self.uid][0] += 1
+            stats[0] += 1
 
             return self.__qa_nb_cache[args]
 
-        self._CACHE_STATS[self.uid][1] += 1
+        stats[1] += 1
         return self._QA_NB_INVALID
 
     def _qa_neighbors_invalidate(self):
@@ -183,7 +186,7 @@ class Vertex(base.BaseObject):
         self.__qa_nb_cache = {}
         if not self.NEIGHBOR_CACHING:
             return
-        self._CACHE_STATS[self.uid][2] += 1
+        self._CACHE_STATS.setdefault(self.uid, [0, 0, 0, 0])[2] += 1
 
     def _qa_neighbors_insert(self, answer, *args):
         """
@@ -199,7 +202,7 @@ class Vertex(base.BaseObject):
         """
         if not self.NEIGHBOR_CACHING:
             return
-        self._CACHE_STATS[self.uid][3] += 1
+        self._CACHE_STATS.setdefault(self.uid, [0, 0, 0, 0])[3] += 1
         self.__qa_nb_cache[args] = answer
 
     def add_to_link(self, link: Link):
